@@ -120,6 +120,7 @@ def main(tier=None):
     scs += [brokerlib.gen_broken_recipient_qos(c.rng) for _ in range(3 if c.tier == "quick" else 40)]
     brokerlib.run_scenarios(c, "abandoned-exchanges-with-witness", scs, samples)
     brokerlib.add_refused_connect_suite(c, samples)
+    brokerlib.run_scenarios(c, "everything-mixed", [brokerlib.gen_soup(c.rng) for _ in range(6 if c.tier == "quick" else 100)], samples)
     c.assumptions += ["the MQTT decoder (module cache) is modelled, not verified", "memory exhaustion and a client that stops READING (writer blocked until its deadline) are outside the model: partial for 'stall'"]
     return c.finish(samples=samples,
                     rule="case = one hostile byte stream (valid packet or structure-aware mutation), before CONNECT or inside a session, whole or "
